@@ -30,6 +30,21 @@ PROPS["C08"] = {
                   "are finite sequences evaluated once. Bounded layer (histories <= 5/6 ops, equal and distinct payloads, 3000-equal-payload run) "
                   "is a stand-in for replay only.",
 }
+PROPS["C06"] = {
+    "units": ["contracts.c06_lru", "contracts.c08_lists"],
+    "bounded": True,
+    "level": "proof",
+    "trusted_base": ["pyvc VC generator (/verif/pyvc)", "z3", "Python semantics as listed in DESIGN.md §2.3",
+                     "dict as a finite map (DESIGN §4)", "DoublyLinkedList contracts (proved in C08 for an uninterpreted payload)"],
+    "level_text": "LRUCache's five primitives are verified against the abstract view M = (key,value) pairs along the recency list with the "
+                  "dict<->list coupling invariant (same keys, each key mapped to its node, size <= max_size): lookup/store/delete are the "
+                  "ordered-dict-with-move-to-front reference operations, and storing a new key into a full cache drops exactly the last "
+                  "entry. The stdlib mixins get/__contains__/keys/values/items/pop/popitem/clear/setdefault and the view iterators are "
+                  "verified from the running interpreter's _collections_abc.py through those contracts, with termination (decreases / "
+                  "finite snapshot) and the iterator-stability frame condition that the original values()/items() violated.",
+    "level_note": "Trusted: pyvc, z3, dict semantics. MutableMapping.update and Mapping.__eq__ are covered by the bounded layer only "
+                  "(dict() construction from pairs is outside the engine); their termination rests on ItemsView.__iter__, which is proved.",
+}
 
 # properties not claimed, with the reason (everything else not in PROPS gets the generic "not built yet" reason)
 NOT_APPLICABLE = {}
